@@ -81,6 +81,9 @@ def run(ctx: Ctx) -> None:
     ctx.rule("D8.2", "penalty and bound expressions")
     _kernel(ctx)
     _bounds(ctx)
+    ctx.rule("D8.4", "a RobinX file's distance team1 -> team2 is stored as "
+             "distances[team1, team2]")
+    _loader(ctx)
     # ---- D8.3: the declared bounds are valid (lemma L8)
     ctx.rule("D8.3", "every plan length lies within the declared bounds "
              "(lemma L8 from the premises D8.1, D8.2)")
@@ -468,3 +471,79 @@ def _bounds(ctx: Ctx) -> None:
            "Instance.get_optimal_plan_length_bounds uses (2*max+1) * n * "
            "(n-1)*rounds for unknown instances - the same penalty",
            construct="instance bound uses same penalty")
+
+
+
+# ------------------------------------------------------------------ D8.4
+def _loader(ctx: Ctx) -> None:
+    """The kernel charges `distances[from, to]` (D8.1); the plan length is
+    the distance travelled only if the loader keeps the direction of the
+    file: `<distance team1= team2= dist=>` becomes the key (team1, team2)
+    and then the cell [key[0], key[1]]."""
+    from sa.srcmodel import inline_locals
+    repo = ctx.repo
+    fi = repo.func("moptipyapps.ttp.instance", "_from_stream")
+
+    def attr_of(e: ast.expr) -> str | None:
+        e = inline_locals(fi.node, e)
+        for n in ast.walk(e):
+            if isinstance(n, ast.Subscript) and ast.unparse(
+                    n.value).endswith(".attrib"):
+                c = repo.const(fi.module, n.slice)
+                if isinstance(c, str):
+                    return c
+        return None
+    # (a) the key of the distance dictionary
+    key_ok = None
+    dname = None
+    for st in ast.walk(fi.node):
+        if isinstance(st, ast.Assign) and len(st.targets) == 1 and \
+                isinstance(st.targets[0], ast.Subscript) and isinstance(
+                st.targets[0].value, ast.Name):
+            k = inline_locals(fi.node, st.targets[0].slice)
+            if isinstance(k, ast.Tuple) and len(k.elts) == 2:
+                roles = [attr_of(x) for x in k.elts]
+                if set(roles) == {"team1", "team2"}:
+                    dname = st.targets[0].value.id
+                    key_ok = roles == ["team1", "team2"]
+                    ctx.ob("D8.4", fi, st, key_ok,
+                           f"distances are keyed by ({roles[0]}, "
+                           f"{roles[1]})" + ("" if key_ok else
+                                             ": the direction of the file "
+                                             "is reversed"),
+                           construct="distance key")
+    # (b) the fill of the matrix
+    fill_ok = None
+    for lp in ast.walk(fi.node):
+        if not (isinstance(lp, ast.For) and dname is not None and ast.unparse(
+                lp.iter) == f"{dname}.items()" and isinstance(
+                lp.target, ast.Tuple) and len(lp.target.elts) == 2):
+            continue
+        kt = lp.target.elts[0]
+        for st in ast.walk(lp):
+            if isinstance(st, ast.Assign) and isinstance(
+                    st.targets[0], ast.Subscript) and isinstance(
+                    st.targets[0].slice, ast.Tuple) and len(
+                    st.targets[0].slice.elts) == 2:
+                a, b = (ast.unparse(x).replace(" ", "")
+                        for x in st.targets[0].slice.elts)
+                if isinstance(kt, ast.Name):
+                    want = (f"{kt.id}[0]", f"{kt.id}[1]")
+                elif isinstance(kt, ast.Tuple) and len(kt.elts) == 2:
+                    want = tuple(ast.unparse(x) for x in kt.elts)
+                else:
+                    continue
+                if {a, b} == set(want):
+                    fill_ok = (a, b) == want
+                    ctx.ob("D8.4", fi, st, fill_ok,
+                           f"the matrix cell [{a}, {b}] receives the "
+                           "distance of its key" + ("" if fill_ok else
+                                                    ": transposed - every "
+                                                    "leg is charged with "
+                                                    "the distance of the "
+                                                    "opposite direction"),
+                           construct="distance matrix fill")
+    if key_ok is None or fill_ok is None:
+        ctx.ob("D8.4", fi, fi.node, False,
+               "the way _from_stream turns <distance> records into the "
+               "matrix is not recognised", construct="distance loader")
